@@ -345,6 +345,7 @@ func (vlog *valueLog) read(vp *kv.ValuePtr) ([]byte, func(), error) {
 
 func (vlog *valueLog) write(reqs []*request) error {
 	heads := make(map[uint32]kv.ValuePtr)
+	lastFid := make(map[uint32]uint32)
 	touched := make(map[uint32]struct{})
 	fail := func(err error, context string) error {
 		for _, req := range reqs {
@@ -391,6 +392,7 @@ func (vlog *valueLog) write(reqs []*request) error {
 			}
 			if _, ok := heads[bucket]; !ok {
 				heads[bucket] = mgr.Head()
+				lastFid[bucket] = heads[bucket].Fid
 			}
 			entries := make([]*kv.Entry, len(idxs))
 			for i, idx := range idxs {
@@ -399,6 +401,16 @@ func (vlog *valueLog) write(reqs []*request) error {
 			ptrs, err := mgr.AppendEntries(entries, nil)
 			if err != nil {
 				return fail(err, "rewind value log after append failure")
+			}
+			// If this append rotated to a new segment, record the segment in the
+			// manifest before any pointer into it can reach the WAL: recovery
+			// removes value-log segments the manifest does not know about.
+			if cur := mgr.Head(); cur.Fid != lastFid[bucket] && vlog.db != nil && vlog.db.lsm != nil {
+				cur.Bucket = bucket
+				if err := vlog.db.lsm.LogValueLogHead(&cur); err != nil {
+					return fail(err, "log value log head after rotation")
+				}
+				lastFid[bucket] = cur.Fid
 			}
 			for i, idx := range idxs {
 				req.Ptrs[idx] = ptrs[i]
